@@ -60,7 +60,7 @@ GStep(p) ==
 GNext ==
   \/ \E p \in Procs : GStep(p)
   \/ \E p \in Procs, k \in Kinds, h \in Hosts : Quiet /\ Call(p, k, h) /\ Log("call", p)
-  \/ \E h \in Hosts : Quiet /\ Expire(h) /\ hist' = Append(hist, [Rec("expire", "") EXCEPT !.h = h])
+  \/ \E h \in Hosts : Quiet /\ ~Terminated /\ Expire(h) /\ hist' = Append(hist, [Rec("expire", "") EXCEPT !.h = h])
 
 GSpec == GInit /\ [][GNext]_gvars
 
